@@ -1,6 +1,6 @@
 SPECIFICATION Spec
 CONSTANTS
-  Configs = {"vars", "alias", "func", "trap"}
+  Configs = {"vars", "alias", "func", "trap", "fn"}
   Depth = 2
   Rich = TRUE
 VIEW View
